@@ -41,13 +41,13 @@ theorem C10_nesting (d : Doc) (e : Edges) (items : List Item) (hb : d.block = .s
   exact itemOut_fits _ _ it (secBox_nonneg _ _ hw) (List.length_pos_of_mem hit) (hs it hit)
 
 /-- the same below a hero: its images and dividers are at most its content box -/
-theorem C10_hero (d : Doc) (e : Edges) (leaves : List Leaf) (hb : d.block = .hero e leaves) :
+theorem C10_hero (d : Doc) (e : Edges) (leaves : List Leaf) (hb : d.block = .hero e leaves) (hs : ∀ lf ∈ leaves, lf.Sane) :
     ∀ x, 0 < (impl d).box → some x ∈ (impl d).heroLeaves → x ≤ (impl d).box := by
   intro x hpos hx
   simp only [impl, hb, List.mem_map] at hx
-  obtain ⟨lf, _, hlf⟩ := hx
+  obtain ⟨lf, hmem, hlf⟩ := hx
   simp only [impl, hb] at hpos ⊢
-  exact leaf_le _ lf x hpos hlf
+  exact leaf_le _ lf x hpos (hs lf hmem) hlf
 
 /-- the pixel width handed to Outlook for a column is its responsive percentage (or pixel) class applied to its section's
     content box, to within the half pixel of rounding to whole pixels -/
@@ -79,6 +79,13 @@ theorem C10_leaf_fills (c : Int) (l r : Nat) (lf : Leaf) (hlf : lf = .image l r 
 theorem C10_explicit_width_clamped (c : Int) (l r w : Nat) (x : Int) (hc : 0 < c) (h : leafW c (.imageW l r w) = some x)
     (hp : 0 < c - ((l + r : Nat) : Int)) : x = min (w : Int) (c - ((l + r : Nat) : Int)) := leaf_explicit c l r w x hc h hp
 
+/-- a divider with a percentage width gets that percentage of the space left after its padding, cut to a whole pixel: the
+    Outlook width `x` satisfies `x ≤ avail·p/100 < x + 1` (stated without division: p = a/b) -/
+theorem C10_divider_percentage (c : Int) (l r a b : Nat) (x : Int) (hc : 0 < c) (hb : 0 < b)
+    (h : leafW c (.dividerP l r a b) = some x) (hp : 0 ≤ c - ((l + r : Nat) : Int)) :
+    ((100 * b : Nat) : Int) * x ≤ (c - ((l + r : Nat) : Int)) * (a : Int) ∧
+    (c - ((l + r : Nat) : Int)) * (a : Int) < ((100 * b : Nat) : Int) * (x + 1) := leaf_pct c l r a b x hc hb h hp
+
 /-- … where the column's content box is exactly the column minus its own padding and borders -/
 theorem C10_column_content (px : Int) (e : Edges) (h : 0 ≤ px - (e.total : Int)) : colContent px e = px - (e.total : Int) :=
   colContent_exact px e h
@@ -90,16 +97,17 @@ theorem C10_column_content (px : Int) (e : Edges) (h : 0 ≤ px - (e.total : Int
 example : (impl ⟨480, none, .sec ⟨25, 25, 0, 0⟩ [.col ⟨.auto, ⟨0, 0, 0, 0⟩, .image 25 25⟩, .col ⟨.auto, ⟨0, 0, 0, 0⟩, .other⟩,
       .col ⟨.auto, ⟨0, 0, 0, 0⟩, .other⟩]⟩).box = 430 := by decide
 example : colPx 430 3 .auto = 143 ∧ leafW (colContent 143 ⟨0, 0, 0, 0⟩) (.image 25 25) = some 93 ∧
-    leafW 300 (.imageW 25 25 900) = some 250 ∧ leafW 300 (.imageW 25 25 100) = some 100 ∧ leafW 300 .carousel = some 300 := by decide
+    leafW 300 (.imageW 25 25 900) = some 250 ∧ leafW 300 (.imageW 25 25 100) = some 100 ∧ leafW 300 .carousel = some 300 ∧
+    leafW 600 (.dividerP 25 25 75 2) = some 206 ∧ leafW 160 (.dividerP 0 0 125 2) = some 100 := by decide
 /-- a wrapper with padding "10px 20px" and a 1 px border in a 500 px body: its section is 458 px wide -/
 example : (impl ⟨500, some ⟨20, 20, 1, 1⟩, .sec ⟨0, 0, 0, 0⟩ []⟩).sectionW = 458 := by decide
 /-- a 60% group of a 480 px box is 288 px; its 25% column 72 px, its automatic column (of two) 144 px -/
 example : groupPx 480 2 (.pct 60 1) = 288 ∧ groupChildPx 288 2 (.pct 25 1) = 72 ∧ groupChildPx 288 2 .auto = 144 := by
   decide
 /-- the hypotheses of `C10_nesting` are met by a concrete two-item section -/
-example : (0 : Int) ≤ blockW ⟨600, none, .sec ⟨0, 0, 0, 0⟩ []⟩ ∧ Item.Sane (.col ⟨.pct 40 1, ⟨0, 0, 0, 0⟩, .other⟩) := by
+example : (0 : Int) ≤ blockW ⟨600, none, .sec ⟨0, 0, 0, 0⟩ []⟩ ∧ Item.Sane (.col ⟨.pct 40 1, ⟨0, 0, 0, 0⟩, .dividerP 25 25 75 2⟩) := by
   refine ⟨by decide, ?_⟩
-  simp [Item.Sane, ColW.Sane]
+  simp [Item.Sane, ColW.Sane, Leaf.Sane]
 
 /-- the horizontal values `ParseHorizontalSpacing` picks out of a padding shorthand are CSS's left and right, for one to four
     values (missing values are taken from the opposite side); anything else is no shorthand.  The Model of the function
